@@ -1,18 +1,19 @@
-(* ModHash.v - model of ly_ctx_get_modules_hash() (src/context.c:747-778) and of the change counter
+(* ModHash.v - model of ly_ctx_get_modules_hash() (src/context.c:747-780) and of the change counter
    (struct ly_ctx.change_count, uint16_t, ly_common.h:350; incremented in lys_parse_in, tree_schema.c:1937,
-   and lys_compile, schema_compile.c:1720), on top of HashFn.lyht_hash_multi.
+   lys_compile, schema_compile.c, and since /repo commit d4e18d7 in lys_implement and in _lys_set_implemented when
+   the features of an implemented module change), on top of HashFn.lyht_hash_multi.
 
    The C function iterates the modules of the context after the internal ones
    (i = ly_ctx_internal_modules_count(ctx)) in context order and feeds to lyht_hash_multi, per module:
      the name, the revision when there is one, the name of every ENABLED feature that the feature iterator
      lysp_feature_next() visits, and the one byte mod->implemented;   finally lyht_hash_multi(hash, NULL, 0).
 
-   DEFECT carried by the model: the iterator state [fi] (index of the feature array being walked: 0 = the module,
-   k = its k-th include) is initialised once before the module loop and not reset per module.  After a module
-   with k includes it is k+1, so for every later module the walk starts at feature array number k+1: the features
-   of the module itself (and of its first includes) are never hashed.  [modhash_gen true] is the function with
-   [fi = 0] at the start of every module (the suggested fix); [modhash] is what the code does today.
-   Switching the development to the fixed code = changing FI_RESET to true (one line). *)
+   History: the iterator state [fi] (index of the feature array being walked: 0 = the module, k = its k-th
+   include) used to be initialised once before the module loop and not reset per module; after a module with k
+   includes it was k+1, so the features of every later module itself (and of its first includes) were never
+   hashed.  Fixed in /repo commit c8adb05 (f = NULL; fi = 0 before the feature loop of every module).
+   [modhash_gen true] = [modhash] is the code as it is now; [modhash_gen false] is kept as the model of the former
+   code for the regression examples only. *)
 From LY Require Import Base HashFn.
 Local Open Scope N_scope.
 
@@ -30,8 +31,8 @@ Record hmod := mkhmod {
 (* feature arrays in the numbering of lysp_feature_next: 0 = module, k+1 = include k *)
 Definition groups (m : hmod) : list (list feat) := h_feats m :: h_subs m.
 
-(* THE SWITCH: false = the code as it is (fi never reset), true = fi reset for every module *)
-Definition FI_RESET : bool := false.
+(* true = fi reset for every module (the code since c8adb05), false = the former code (fi never reset) *)
+Definition FI_RESET : bool := true.
 
 (* ---- lysp_feature_next(last, pmod, idx), src/schema_features.c:144-170 ----
    [last] is the position of the previous feature inside array number [idx] (None = NULL; in both callers the
@@ -152,8 +153,9 @@ Definition spec_mod_stream (o : bytes * option bytes * bool * list bytes) : byte
 Definition spec_stream (os : list (bytes * option bytes * bool * list bytes)) : bytes :=
   concat (map spec_mod_stream os).
 
-(* ---- change counter: uint16_t, ++ once per module added to the context (lys_parse_in) and once per
-   lys_compile() call ---- *)
+(* ---- change counter: uint16_t, ++ once per module added to the context (lys_parse_in), once per lys_compile()
+   call, once per module made implemented (lys_implement) and once per feature change of an implemented module
+   (_lys_set_implemented) ---- *)
 Definition U16 : N := 65536.
 Definition cc_incr (c : N) : N := (c + 1) mod U16.
 Definition cc_after (c : N) (events : N) : N := N.iter events cc_incr c.
@@ -163,3 +165,6 @@ Fixpoint cc_run (c : N) (ops : list N) : list N :=
   | [] => []
   | n :: r => let c' := cc_after c n in c' :: cc_run c' r
   end.
+
+(* the byte stream the code hashes now *)
+Definition mod_stream (ms : list hmod) : bytes := stream_gen FI_RESET ms.
